@@ -10,7 +10,7 @@ gossip: the union of all instances' deliveries contains no unjustified notificat
 import json, os, re, collections
 from lib import vlib
 from lib.vlib import log
-from checks import e2ecommon
+from checks import e2ecommon, peercommon
 
 PID = "C08"
 OWN = {"C01": "owed notification neither delivered by this instance nor known from a peer",
@@ -77,6 +77,10 @@ def run(tier, v):
         v.notes.append("DRIFT property=C08 clauses of other properties in instance runs: %s" % dict(drift))
     log("  mesh: %d scenarios (%d fault-free), %d instance runs + %d merged runs, %d events, %d states validated" %
         (res["cases"], res["counters"].get("healthy_scenarios", 0), len({json.loads(l)["run"] for l in lines}) - len(merged), len(merged), len(lines), r.distinct))
+    # readiness on REAL memberlist peers over loopback (spec/GossipPeers.tla: the Settle loop gives up at
+    # its timeout and the instance becomes ready, so the settle stage of its flushes passes)
+    peer_mc = peercommon.model_check(PID, tier, ["MC_GossipPeers_ready.cfg", "MC_GossipPeers_stuck.cfg"])
+    peers = peercommon.run_real_peers(PID, tier, v)
     sample = []
     for l in lines[:600]:
         e = json.loads(l)
@@ -89,13 +93,16 @@ def run(tier, v):
         "rule": "one case = one cluster scenario (2-3 real instances, heartbeats every minute, fire/resolve events, and - in the non-trivial ones - "
                 "gossip loss 20-60%, delays up to 40 s, partitions, crashes and restarts with or without snapshot)",
         "samples": sample,
+        "real_peers": peers, "real_peers_mc": peer_mc,
         "bounds": "Cluster.tla MC: 3 instances fault-free; 2 instances with loss, delay 0..3 > peer timeout 2, 2 crashes; mesh: 2-3 instances, 3 timer sets, peer timeout 15 s, horizon 3 repeat intervals",
     }
     return "model_checking", cov, e2ecommon.ASSUMPTIONS + [
         "clocks agree (one virtual clock); membership is an input (each instance's view follows crashes and partitions at once); memberlist itself is C19's",
         "alerts reach every instance that is up (Prometheus sends to all Alertmanagers) and are re-sent every minute",
-    ]
+    ] + peercommon.ASSUMPTIONS
 
 
 def replay(path, v):
+    if "peer" in os.path.basename(path):
+        return peercommon.replay(PID, path, v)
     raise vlib.Inconclusive("re-run `bin/check C08` with the VERIF_SEED of the evidence")
